@@ -134,40 +134,53 @@ Theorem smgr_reports_matching_kind c :
   (isinst c KTemporary = true -> isinst c KOutOfSpace = false -> f_note e = Some NTemporary).
 Proof. cbv zeta. destruct (smgr_raise_effect c) as (_ & _ & -> & _). apply notify_kind_matches. Qed.
 
-(* the classification of do() as the loop sees it: a plain Exception leaves do() only when state.change() raised *)
+(* state.change() raised: a CloudException is reported and answered with a backoff request; anything else leaves do() *)
+Theorem smgr_change_effect c :
+  let s := smgr_step (SChange c) in
+  s_out s = (if isinst c KCloud then OBackoff else OExc) /\ f_punt (s_eff s) = false /\ f_commit (s_eff s) = false /\
+  f_note (s_eff s) = notify c.
+Proof.
+  unfold smgr_step, dispatch, change_handlers, isany. cbn [find h_classes existsb]. rewrite orb_false_r.
+  destruct (isinst c KCloud) eqn:C; cbn; repeat split; try reflexivity.
+  destruct (notify c) eqn:N; [|reflexivity]. apply notify_some_cloud in N. congruence.
+Qed.
+
+(* the classification of do() as the loop sees it: a plain Exception leaves do() only when state.change() raised
+   something that is not a CloudException *)
 Theorem smgr_outcome_classes r :
   match r with
   | SIdle | SDone false => s_out (smgr_step r) = ONoop
   | SDone true => s_out (smgr_step r) = ODid
   | SRaise _ | SRoots _ => s_out (smgr_step r) = OBackoff
-  | SChange _ => s_out (smgr_step r) = OExc
+  | SChange c => s_out (smgr_step r) = if isinst c KCloud then OBackoff else OExc
   end.
 Proof.
   destruct r as [|[|]|c|c|c]; try reflexivity.
   - apply (smgr_raise_effect c).
   - apply (smgr_roots_effect c).
+  - apply (smgr_change_effect c).
 Qed.
 
 Lemma smgr_never_base r : s_out (smgr_step r) <> OBaseExc.
-Proof. pose proof (smgr_outcome_classes r) as H. destruct r as [|[|]|c|c|c]; rewrite H; discriminate. Qed.
+Proof.
+  pose proof (smgr_outcome_classes r) as H. destruct r as [|[|]|c|c|c]; rewrite H; try discriminate.
+  destruct (isinst c KCloud); discriminate.
+Qed.
 
-(* full strength "every temporary error raised during a step is reported": false, state.change() is not guarded *)
+(* full strength: every temporary / disconnected / invalid-name condition raised during a step is reported *)
 Definition raised (r : sres) (c : cls) : Prop := r = SRaise c \/ r = SRoots c \/ r = SChange c.
-Definition smgr_every_fault_notified_full : Prop :=
-  forall r c, raised r c -> isinst c KTemporary = true -> f_note (s_eff (smgr_step r)) <> None.
-Lemma smgr_every_fault_notified_refuted : ~ smgr_every_fault_notified_full.
-Proof. intros H. apply (H (SChange (K KTemporary)) (K KTemporary)); [right; right; reflexivity|reflexivity|reflexivity]. Qed.
-Lemma smgr_every_fault_notified_partial r c :
-  r = SRaise c \/ r = SRoots c ->
+Theorem smgr_every_fault_notified r c :
+  raised r c ->
   isinst c KTemporary = true \/ isinst c KDisconnected = true \/ isinst c KFileName = true ->
   f_note (s_eff (smgr_step r)) = notify c /\ notify c <> None.
 Proof.
   intros Hr Hc.
   assert (N : notify c <> None).
   { rewrite notify_none_iff. intros (A & B & _ & _ & E). destruct Hc as [Hc|[Hc|Hc]]; congruence. }
-  split; [|exact N]. destruct Hr as [-> | ->].
+  split; [|exact N]. destruct Hr as [-> | [-> | ->]].
   - apply (smgr_raise_effect c).
   - apply (smgr_roots_effect c).
+  - apply (smgr_change_effect c).
 Qed.
 
 (* ------------------------------------------------------------------ (b) EventManager *)
@@ -343,7 +356,7 @@ Proof.
   intros [-> | [-> | ->]].
   - destruct (smgr_raise_effect c) as [-> _]. reflexivity.
   - destruct (smgr_roots_effect c) as [-> _]. reflexivity.
-  - reflexivity.
+  - destruct (smgr_change_effect c) as [-> _]. destruct (isinst c KCloud); reflexivity.
 Qed.
 Lemma emgr_fault_is_failure auth i c : emgr_exc auth i = RRaise c -> is_failure (x_out (emgr_step auth i)) = true.
 Proof.
